@@ -1,6 +1,7 @@
 package verifsim
 
 import (
+	"bytes"
 	"fmt"
 	"math/rand/v2"
 	"time"
@@ -140,9 +141,13 @@ func hostileDatagram(r *rand.Rand, captured [][]byte, cidLen int, uOnly bool) (d
 			if !protectedOnly(d) || (uOnly && !single(d)) {
 				continue
 			}
+			orig := append([]byte(nil), d...)
 			for k := 0; k < 1+r.IntN(4); k++ {
 				bit := 8*min(13+cidLen, len(d)-1) + r.IntN(8*(len(d)-min(13+cidLen, len(d)-1)))
 				d[bit/8] ^= 1 << (bit % 8)
+			}
+			if bytes.Equal(d, orig) {
+				continue // the same bit flipped twice: that would be the genuine datagram delivered early
 			}
 
 			return d, "protected-bitflip"
